@@ -30,16 +30,46 @@ def dedup : List Nat → List Nat
   | [] => []
   | x :: xs => x :: (dedup xs).filter (· ≠ x)
 
+def optIntTok (t : String) : Option (Option Int) :=
+  if t = "n" then some none else (parseInt t).map some
+
+/-- a schedule token: an iterator number, `L<table>:<a>:<b>` (`table.fmt.set_limits((a, b))`) or
+`A<table>:<val>+<val>…` (`table.records.append(record)`) -/
+def parseSchedTok (t : String) : Option (Sum Nat Ev) :=
+  if t.startsWith "L" then
+    match (t.drop 1).toString.splitOn ":" with
+    | [ti, a, b] =>
+      match ti.toNat?, optIntTok a, optIntTok b with
+      | some ti, some a, some b => some (.inr (.setLimits ti a b))
+      | _, _, _ => none
+    | _ => none
+  else if t.startsWith "A" then
+    match (t.drop 1).toString.splitOn ":" with
+    | [ti, vals] =>
+      match ti.toNat?, (if vals = "" then some [] else (vals.splitOn "+").mapM Wire.parseVal) with
+      | some ti, some r => some (.inr (.append ti r))
+      | _, _ => none
+    | _ => none
+  else t.toNat?.map .inl
+
+/-- iterator entries become `start` events at their first occurrence; iterators never mentioned are
+started at the end (the drain phase) -/
+def toEvents (n : Nat) (sch : List (Sum Nat Ev)) : List Ev :=
+  let rec go (seen : List Nat) : List (Sum Nat Ev) → List Ev
+    | [] => ((List.range n).filter (fun i => !seen.contains i)).map Ev.start
+    | .inl i :: rest => if i < n && !seen.contains i then Ev.start i :: go (i :: seen) rest else go seen rest
+    | .inr e :: rest => e :: go seen rest
+  go [] sch
+
 def handleIlv (rest : List String) : String :=
   match (Wire.splitAt rest).reverse with
   | sched :: its :: specsRev =>
-    match specsRev.reverse.mapM Wire.parseSpec, its.mapM (·.toNat?), sched.mapM (·.toNat?) with
+    match specsRev.reverse.mapM Wire.parseSpec, its.mapM (·.toNat?), sched.mapM parseSchedTok with
     | some args, some iters, some sch =>
       match args.mapM mkTable with
       | .error e => "err " ++ e.name
       | .ok tables =>
-        let order := dedup ((sch.filter (· < iters.length)) ++ List.range iters.length)
-        match startIters tables iters order [] with
+        match runEvents tables iters (toEvents iters.length sch) [] with
         | .error e => "err " ++ e.name
         | .ok res =>
           let byIter := (List.range iters.length).map fun i =>
@@ -47,6 +77,34 @@ def handleIlv (rest : List String) : String :=
             | some (_, ls) => Wire.showLines ls
             | none => "0"
           "ok " ++ " ".intercalate (toString iters.length :: byIter)
+    | _, _, _ => "bad-op"
+  | _ => "bad-op"
+
+/-- Siblings from one format object: `A = PPTable(recsA, fmt_obj=F, …)` is printed, then
+`B = PPTable(recsB, fmt_obj=F, limits=…, skip_columns=…)` is built and printed, then `A` is printed
+again, then (when `F` is the format of a donor table) the donor: four renderings. -/
+def handleObj2 (pf via : String) (rest : List String) : String :=
+  match Wire.splitAt rest with
+  | [donor, ra, rb] =>
+    match Wire.parseSpec donor, Wire.parseRest ra, Wire.parseRest rb with
+    | some a, some x, some y =>
+      let donorT : Except Err Tbl :=
+        if via = "1" then mkTable { a with limits := none, skip := none }
+        else if pf = "1" then (mkTable a >>= render).map (·.1)
+        else mkTable a
+      let res : Except Err (List (List Line)) := do
+        let d ← donorT
+        let ta := mkTableFromFmt d.fmt x.records x.limits x.skip x.header x.footer
+        let (ta', l1) ← render ta
+        let tb := mkTableFromFmt d.fmt y.records y.limits y.skip y.header y.footer
+        let (_, l2) ← render tb
+        let (_, l3) ← render ta'
+        if via = "1" then .ok [l1, l2, l3] else do
+          let (_, l4) ← render d
+          .ok [l1, l2, l3, l4]
+      match res with
+      | .ok ls => "ok " ++ " ".intercalate (toString ls.length :: ls.map Wire.showLines)
+      | .error e => "err " ++ e.name
     | _, _, _ => "bad-op"
   | _ => "bad-op"
 
@@ -67,6 +125,7 @@ def handle (line : String) : String :=
   match splitWs line with
   | "tset" :: pf :: rest => handleTset pf rest
   | "obj" :: pf :: via :: rest => handleObj pf via rest
+  | "obj2" :: pf :: via :: rest => handleObj2 pf via rest
   | "ilv" :: rest => handleIlv rest
   | "tbl" :: spec =>
     match Wire.parseSpec spec with
